@@ -20,7 +20,8 @@ def gen(rng, tier):
         return G.gen_cfg(rng, max_vars=5, max_prods=10, max_body=5)      # larger shapes in the deep tier
     c = G.gen_cfg(rng)
     if c["valmode"] == "str" and rng.chance(0.06):
-        c["valmode"] = "mixed2"      # terminals that print alike (1 / "1" / "1 1")
+        # terminals that print alike (1 / "1" / "1 1"), or int-valued variables (the start symbol is 0, a falsy value)
+        c["valmode"] = rng.pick(["mixed2", "ivar", "tup"])
     return c
 
 
